@@ -39,7 +39,7 @@ INFO = {
     "C13": _e("tmpl+pyvc", "DESIGN.md 4/C13", "contract-based deductive verification: single-token obligations at every interpolation site of the real generator (z3 strings / assumed repr contract), module == D(ast) up to constants (parse oracle)",
               "every site where source-derived text enters the generated code is enumerated by structural execution and shown to produce one literal token for all contents; the rest of the module is fixed skeleton text", _PROOF_NOTE + " " + _T),
     "C14": _e("tmpl+pyvc", "DESIGN.md 4/C14", "contract-based deductive verification: generate verified for both layouts against D.module (parse oracle), generate_code call-site contract (z3), pinned exec pipeline of recompile",
-              "both layouts parse to the same D up to helper placement, generate_code uses the evaluator's generator with the same arguments; experiment-id capture is a recorded known finding whose exclusion set is itself an obligation", _PROOF_NOTE + " " + _T),
+              "both layouts parse to the same D up to helper placement, generate_code uses the evaluator's generator with the same arguments; experiment-id capture and CPython's 100-level indentation limit (layouts part ways at nesting depth 98) are recorded known findings whose exclusion sets are themselves obligations", _PROOF_NOTE + " " + _T),
     "C15": _e("pyvc+tmpl", "DESIGN.md 4/C15", "contract-based deductive verification: no-exception clause of deterministic_proba for every str (z3), key template is str() of each splitter",
               "no exceptional path exists in deterministic_proba for any well-formed str; keys of values that print identically are equal by congruence", _PROOF_NOTE),
     "C16": _e("pyvc", "DESIGN.md 4/C16", "contract-based deductive verification: pyvc VCs from the real deterministic_choice body + lemmas over its contract, z3/cvc5",
